@@ -139,7 +139,7 @@ func pLI(n int) *Node {
 func pLS(n int) *Node {
 	return leaf("pls", strconv.Itoa(n), aval{K: 'L', Known: true, N: int64(n), AllInt: n == 0})
 }
-func pM() *Node           { return leaf("pm", "", aval{K: 'M', Known: true, N: 2}) }
+func pM() *Node            { return leaf("pm", "", aval{K: 'M', Known: true, N: 2}) }
 func pF(name string) *Node { return leaf("pf", strconv.Quote(name), aval{K: 'F'}) }
 func pErr(kind int) *Node {
 	if kind == 2 {
@@ -621,39 +621,46 @@ func (n *Node) eval(r *ref) (aval, bool) {
 		} else if c.Known && c.K == 'S' {
 			length = int64(len(c.S))
 		}
-		var idx []int64
-		for _, k := range n.Kids[1:] {
+		var roles string
+		switch n.Op {
+		case "b:e":
+			roles = "be"
+		case "b:":
+			roles = "b"
+		case ":e":
+			roles = "e"
+		case "b:e:c":
+			roles = "bec"
+		case ":e:c":
+			roles = "ec"
+		}
+		b, e, cp := int64(0), length, length
+		for i, k := range n.Kids[1:] {
 			v, ok := k.eval(r)
 			if !ok {
 				return unknownVal, false
 			}
+			// An index that is not a known valid integer may end the slice
+			// expression between two operands (anko checks each bound as soon as
+			// it has it); the property does not say: such programs are not compared.
 			if v.K != 'I' || !v.Known || length < 0 {
-				// an index that is not a known valid integer may end the slice
-				// expression between two operands: not stated, not compared
-				r.unknownStatus()
-				continue
+				r.undet = true
+				return unknownVal, true
 			}
-			idx = append(idx, v.N)
+			switch roles[i] {
+			case 'b':
+				b = v.N
+			case 'e':
+				e = v.N
+			case 'c':
+				cp = v.N
+			}
+			if b < 0 || e > length || (roles[i] != 'b' && b > e) || (roles[i] == 'c' && (cp < e || cp > length)) || (roles == "b" && b > length) {
+				r.undet = true
+				return unknownVal, true
+			}
 		}
-		if r.pending || length < 0 {
-			return unknownVal, true
-		}
-		b, e, cp := int64(0), length, length
-		switch n.Op {
-		case "b:e":
-			b, e = idx[0], idx[1]
-		case "b:":
-			b = idx[0]
-		case ":e":
-			e = idx[0]
-		case "b:e:c":
-			b, e, cp = idx[0], idx[1], idx[2]
-		case ":e:c":
-			e, cp = idx[0], idx[1]
-		}
-		if b < 0 || e > length || b > e || cp < e || cp > length {
-			// the generator only keeps programs whose indices are valid (an
-			// invalid begin ends the expression before `end` runs: not stated)
+		if length < 0 {
 			r.undet = true
 			return unknownVal, true
 		}
@@ -1014,6 +1021,12 @@ func (n *Node) evalCall(r *ref) (aval, bool) {
 	if convFailed {
 		r.aborted = true
 		return unknownVal, false
+	}
+	if n.Spread && !c.Script && !c.Variadic && c.NFixed-(nargs-1) >= 2 {
+		// anko fills the fixed parameters of a Go function from the spread slice
+		// in a loop that clobbers the slice after the first element (a Go panic,
+		// C01/C11's business): the call may fail after its operands ran
+		r.unknownStatus()
 	}
 	if n.Spread {
 		last := vals[len(vals)-1]
